@@ -298,10 +298,10 @@ func runSign(x *run, a map[string]string) {
 	signAlgo, halg, data, rnd := atoi(a["signalgo"]), atoi(a["halg"]), core.UnHex(a["data"]), byte(atoi(a["rnd"]))
 	auto := a["auto"] == "1"
 	priv := signerOf(keyName)
-	t := &tables{}
-	t.hashAll(data)
 
 	if a["flavour"] == "bg" {
+		t := &tables{}
+		t.hashAll(data)
 		k := priv.(*rsa.PrivateKey)
 		bg.RandReader = constReader(rnd)
 		var ks bg.KeySignature
@@ -345,9 +345,19 @@ func runSign(x *run, a map[string]string) {
 	if err == nil {
 		res = "ok " + showKS(&ks)
 	}
-	var req string
-	scheme := signAlgo
-	offered := false
+	req, scheme, offered := signReq(priv, signAlgo, halg, data, rnd, auto)
+	x.M("setsig", req, res)
+	x.out.Class = fmt.Sprintf("sign:%s:%d:%s", strings.SplitN(keyName, ":", 2)[0], scheme, okErr(err))
+	signOracles(x, "", &ks, err, priv, keyName, scheme, offered, data, rnd)
+}
+
+// signReq: the request of the M check for KeySignature.SetSignature(signAlgo, halg, priv, data) /
+// SetSignatureAuto (with the tables of what the real signers produce on the data), the scheme that
+// results, and whether the combination is one the code offers for this key.
+func signReq(priv crypto.Signer, signAlgo, halg int, data []byte, rnd byte, auto bool) (req string, scheme int, offered bool) {
+	t := &tables{}
+	t.hashAll(data)
+	scheme, offered = signScheme(priv, signAlgo, halg, auto)
 	switch k := priv.(type) {
 	case *rsa.PrivateKey:
 		for _, sch := range []int{0, 1} {
@@ -357,6 +367,29 @@ func runSign(x *run, a map[string]string) {
 			}
 		}
 		req = fmt.Sprintf("setsig rsa %s %x %d %d %s", bigHex(k.N), k.E, signAlgo, halg, core.Hex(data))
+	case *ecdsa.PrivateKey:
+		for _, hf := range hashAlgs {
+			d := digest(hf, data)
+			r, s := ecdsaSignReal(k, rnd, d)
+			t.add(fmt.Sprintf("e:%s:%d:%s:%s", fnv(d), len(d), bigHex(r), bigHex(s)))
+		}
+		req = fmt.Sprintf("setsig ecdsa %s %s %d %d %s", bigHex(k.X), bigHex(k.Y), signAlgo, halg, core.Hex(data))
+	case *sm2.PrivateKey:
+		r, s, serr := sm2.Sm2Sign(k, data, sm2UID, constReader(rnd))
+		if serr == nil {
+			t.add(fmt.Sprintf("m:%s:%d:%s:%s", fnv(data), len(data), bigHex(r), bigHex(s)))
+		}
+		req = fmt.Sprintf("setsig sm2 %s %s %d %d %s", bigHex(k.X), bigHex(k.Y), signAlgo, halg, core.Hex(data))
+	}
+	return req + t.String(), scheme, offered
+}
+
+// signScheme: the scheme a signing request results in (0 = detected from the key) and whether the
+// combination is one the code offers for this key ("valid key and message" of the property).
+func signScheme(priv crypto.Signer, signAlgo, halg int, auto bool) (scheme int, offered bool) {
+	scheme = signAlgo
+	switch k := priv.(type) {
+	case *rsa.PrivateKey:
 		if scheme == 0 {
 			switch k.N.BitLen() {
 			case 2048:
@@ -373,33 +406,25 @@ func runSign(x *run, a map[string]string) {
 			offered = offered && (k.N.BitLen() == 2048 || k.N.BitLen() == 3072)
 		}
 	case *ecdsa.PrivateKey:
-		for _, hf := range hashAlgs {
-			d := digest(hf, data)
-			r, s := ecdsaSignReal(k, rnd, d)
-			t.add(fmt.Sprintf("e:%s:%d:%s:%s", fnv(d), len(d), bigHex(r), bigHex(s)))
-		}
-		req = fmt.Sprintf("setsig ecdsa %s %s %d %d %s", bigHex(k.X), bigHex(k.Y), signAlgo, halg, core.Hex(data))
 		if scheme == 0 {
 			scheme = algECDSA
 		}
 		offered = scheme == algECDSA && (halg == 0 || halg == algNull || newHash(halg) != nil)
 	case *sm2.PrivateKey:
-		r, s, serr := sm2.Sm2Sign(k, data, sm2UID, constReader(rnd))
-		if serr == nil {
-			t.add(fmt.Sprintf("m:%s:%d:%s:%s", fnv(data), len(data), bigHex(r), bigHex(s)))
-		}
-		req = fmt.Sprintf("setsig sm2 %s %s %d %d %s", bigHex(k.X), bigHex(k.Y), signAlgo, halg, core.Hex(data))
 		if scheme == 0 {
 			scheme = algSM2
 		}
 		offered = scheme == algSM2 && (halg == 0 || halg == algNull || halg == algSM3)
 	}
-	x.M("setsig", req+t.String(), res)
-	x.out.Class = fmt.Sprintf("sign:%s:%d:%s", strings.SplitN(keyName, ":", 2)[0], scheme, okErr(err))
+	return scheme, offered
+}
 
+// signOracles: what the property says about the structure a signing call left behind (err = what
+// the call returned).  pfx distinguishes the failure signatures of the multi-step sequences.
+func signOracles(x *run, pfx string, ks *cbnt.KeySignature, err error, priv crypto.Signer, keyName string, scheme int, offered bool, data []byte, rnd byte) {
 	// oracle (property: signing succeeds for every valid key and message)
 	if offered {
-		x.OSig("sign-succeeds", fmt.Sprintf("sign-fails:%s:%d", strings.SplitN(keyName, ":", 2)[0], scheme), "ok", okErr(err))
+		x.OSig("sign-succeeds", fmt.Sprintf("%ssign-fails:%s:%d", pfx, strings.SplitN(keyName, ":", 2)[0], scheme), "ok", okErr(err))
 	}
 	if err != nil {
 		return
@@ -408,40 +433,40 @@ func runSign(x *run, a map[string]string) {
 	switch k := priv.(type) {
 	case *rsa.PrivateKey:
 		// oracle: RSA signatures produced by the library verify over the same data
-		x.OSig("sign-verify", fmt.Sprintf("sign-verify:%d:%d", scheme, recorded), "ok", okErr(ks.Verify(data)))
-		x.OSig("pubkey-roundtrip", "pubkey-roundtrip", fmt.Sprintf("ok rsa %s %x", bigHex(k.N), k.E),
+		x.OSig("sign-verify", fmt.Sprintf("%ssign-verify:%d:%d", pfx, scheme, recorded), "ok", okErr(ks.Verify(data)))
+		x.OSig("pubkey-roundtrip", pfx+"pubkey-roundtrip", fmt.Sprintf("ok rsa %s %x", bigHex(k.N), k.E),
 			specPub(int(ks.Key.KeyAlg), int(ks.Key.KeySize), ks.Key.Data))
 		// … and under Go's standard verification with the recorded hash, independently of fiano
 		sch := 0
 		if scheme == algRSAPSS {
 			sch = 1
 		}
-		x.OSig("sign-verify-standard", fmt.Sprintf("sign-verify:%d:%d", scheme, recorded), "true",
+		x.OSig("sign-verify-standard", fmt.Sprintf("%ssign-verify:%d:%d", pfx, scheme, recorded), "true",
 			fmt.Sprint(rsaVerifyReal(sch, recorded, k.N, k.E, digest(recorded, data), ks.Signature.Data)))
 	case *ecdsa.PrivateKey:
 		d := ks.Signature.Data
 		// oracle: fixed width (P-256: 2·32 bytes), decodes to what the signer produced,
 		// verifies under the standard algorithm with the recorded hash
-		x.OSig("rs-fixed-width-256", "rs-width", "64", fmt.Sprint(len(d)))
+		x.OSig("rs-fixed-width-256", pfx+"rs-width", "64", fmt.Sprint(len(d)))
 		if len(d) == 64 {
 			r, s := fromLE(d[:32]), fromLE(d[32:])
 			dg := digest(recorded, data)
 			er, es := ecdsaSignReal(k, rnd, dg)
-			x.OSig("rs-decodes-to-signer-output", "rs-decode", bigHex(er)+" "+bigHex(es), bigHex(r)+" "+bigHex(s))
-			x.OSig("ecdsa-verify-standard", "ecdsa-verify", "true", fmt.Sprint(dg != nil && ecdsa.Verify(&k.PublicKey, dg, r, s)))
+			x.OSig("rs-decodes-to-signer-output", pfx+"rs-decode", bigHex(er)+" "+bigHex(es), bigHex(r)+" "+bigHex(s))
+			x.OSig("ecdsa-verify-standard", pfx+"ecdsa-verify", "true", fmt.Sprint(dg != nil && ecdsa.Verify(&k.PublicKey, dg, r, s)))
 		}
-		x.OSig("pubkey-roundtrip", "pubkey-roundtrip", fmt.Sprintf("ok ecc %s %s", bigHex(k.X), bigHex(k.Y)),
+		x.OSig("pubkey-roundtrip", pfx+"pubkey-roundtrip", fmt.Sprintf("ok ecc %s %s", bigHex(k.X), bigHex(k.Y)),
 			specPub(int(ks.Key.KeyAlg), int(ks.Key.KeySize), ks.Key.Data))
 	case *sm2.PrivateKey:
 		d := ks.Signature.Data
-		x.OSig("rs-fixed-width-256", "rs-width", "64", fmt.Sprint(len(d)))
+		x.OSig("rs-fixed-width-256", pfx+"rs-width", "64", fmt.Sprint(len(d)))
 		if len(d) == 64 {
 			r, s := fromLE(d[:32]), fromLE(d[32:])
 			er, es, _ := sm2.Sm2Sign(k, data, sm2UID, constReader(rnd))
-			x.OSig("rs-decodes-to-signer-output", "rs-decode", bigHex(er)+" "+bigHex(es), bigHex(r)+" "+bigHex(s))
-			x.OSig("sm2-verify-standard", "sm2-verify", "true", fmt.Sprint(sm2.Sm2Verify(&k.PublicKey, data, sm2UID, r, s)))
+			x.OSig("rs-decodes-to-signer-output", pfx+"rs-decode", bigHex(er)+" "+bigHex(es), bigHex(r)+" "+bigHex(s))
+			x.OSig("sm2-verify-standard", pfx+"sm2-verify", "true", fmt.Sprint(sm2.Sm2Verify(&k.PublicKey, data, sm2UID, r, s)))
 		}
-		x.OSig("pubkey-roundtrip", "pubkey-roundtrip", fmt.Sprintf("ok sm2 %s %s", bigHex(k.X), bigHex(k.Y)),
+		x.OSig("pubkey-roundtrip", pfx+"pubkey-roundtrip", fmt.Sprintf("ok sm2 %s %s", bigHex(k.X), bigHex(k.Y)),
 			specPub(int(ks.Key.KeyAlg), int(ks.Key.KeySize), ks.Key.Data))
 	}
 }
